@@ -418,6 +418,94 @@ def h_adq_rest(v: List[int]) -> bool:
     return vlib.untraced(_adequacy, "rest", _code(vlib.realize(v)), RTL)
 
 
+# ------------------------------------------------------------------ adequacy: XML namespace scenarios (element-level decoder)
+
+XML_PREFIX = ["", "a:", "b:", "xml:"]
+XML_ATTR = [None, 'c="t"', 'xmlns:a="t"', 'xmlns:b="t"', 'a:c="t"', 'b:c="t"', 'xml:c="t"', 'xmlns:xmlns="t"', 'xmlns="t"']
+XML_KIND = ["text", "child-openclose", "child-with-text", "two-children", "self-closing"]
+_XML_PARSER = None
+
+
+def _xml_string(v):
+    """v = [outer prefix, outer attr 1, outer attr 2, kind, inner prefix, inner attr 1, inner attr 2, close tag variant]"""
+    p0, a1, a2, kind, p1, b1, b2, close = v
+
+    def attrs(*ix):
+        out = [XML_ATTR[i] for i in ix if XML_ATTR[i] is not None]
+        return (" " + " ".join(out)) if out else ""
+    outer = XML_PREFIX[p0] + "e"
+    inner = XML_PREFIX[p1] + "f"
+    k = XML_KIND[kind]
+    if k == "self-closing":
+        if p1 or b1 or b2 or close:
+            raise vlib.IgnoreAttempt()
+        return "<%s%s/>" % (outer, attrs(a1, a2))
+    if k == "text":
+        if p1 or b1 or b2:
+            raise vlib.IgnoreAttempt()
+        body = "t"
+    elif k == "child-openclose":
+        body = "<%s%s/>" % (inner, attrs(b1, b2))
+    elif k == "child-with-text":
+        body = "<%s%s>t</%s>" % (inner, attrs(b1, b2), inner)
+    else:
+        body = "<%s%s/><%s/>" % (inner, attrs(b1, b2), inner)      # the declaration of the first child is not in scope of the second
+    closing = [outer, "e", "a:e", XML_PREFIX[p0] + "g"][close]
+    if close and closing == outer:
+        raise vlib.IgnoreAttempt()
+    return "<%s%s>%s</%s>" % (outer, attrs(a1, a2), body, closing)
+
+
+def _adequacy_xml_ns(v) -> bool:
+    global _XML_PARSER
+    s = _xml_string(v)
+    name, grammar, constraint, validator, _ = FORMS[1]
+    if _XML_PARSER is None:
+        _XML_PARSER = EarleyParser(grammar)
+    try:
+        tree = DerivationTree.from_parse_tree(next(_XML_PARSER.parse(s)))
+    except SyntaxError:
+        raise vlib.IgnoreAttempt()
+    if not _feature_gate(s, tree):
+        raise vlib.IgnoreAttempt()
+    try:
+        verdict = evaluate(constraint, tree, grammar)
+    except Exception as e:
+        raise AssertionError("evaluate(shipped xml constraint) raised %s on %r: %s" % (type(e).__name__, s, str(e)[:100]))
+    if not verdict.is_true():
+        return True
+    res = validator(tree)
+    if res is not True:
+        raise AssertionError("the shipped xml constraint holds on %r, which the independent xml check rejects: %s" % (s, res))
+    return True
+
+
+XML_SLOTS = [int(x) for x in os.environ.get("VERIF_XML_SLOTS", "1,1").split(",")]     # attribute slots used on the outer / inner element
+XML_CLOSE = [int(x) for x in os.environ.get("VERIF_XML_CLOSE", "0,1,2,3").split(",")]
+
+
+def _ok_xml(v: List[int]) -> bool:
+    if len(v) != 8:
+        return False
+    lims = [len(XML_PREFIX), len(XML_ATTR), len(XML_ATTR), len(XML_KIND), len(XML_PREFIX), len(XML_ATTR), len(XML_ATTR), 4]
+    if not all(0 <= x < m for x, m in zip(v, lims)):
+        return False
+    if (XML_SLOTS[0] == 1 and v[2]) or (XML_SLOTS[1] == 1 and v[6]) or v[7] not in XML_CLOSE:
+        return False
+    if PART:
+        k, m = PART.split("/")
+        return (v[1] + v[2] + v[3] * 3 + v[5]) % int(m) == int(k)
+    return True
+
+
+def h_adq_xml_ns(v: List[int]) -> bool:
+    """
+    pre: _ok_xml(v)
+    post: _
+    """
+    return vlib.untraced(_adequacy_xml_ns, [int(x) for x in vlib.realize(v)])
+
+
 # ------------------------------------------------------------------ adequacy: simple TAR (field-level decoder)
 
 TAR2 = os.environ.get("VERIF_TAR2", "0") == "1"
@@ -491,9 +579,22 @@ def _ok_tar(v: List[int]) -> bool:
     return True
 
 
+def _timed(fn, *args):
+    log = os.environ.get("VERIF_TIMELOG")
+    if not log:
+        return fn(*args)
+    import time as _t
+    t0 = _t.time()
+    try:
+        return fn(*args)
+    finally:
+        with open(log, "a") as f:
+            f.write("%.3f %.3f %s\n" % (t0, _t.time() - t0, args))
+
+
 def h_adq_tar(v: List[int]) -> bool:
     """
     pre: _ok_tar(v)
     post: _
     """
-    return vlib.untraced(_adequacy_tar, [int(x) for x in vlib.realize(v)])
+    return vlib.untraced(_timed, _adequacy_tar, [int(x) for x in vlib.realize(v)])
